@@ -1189,6 +1189,7 @@ func (r *Reader) start(offsetsByPartition map[topicPartition]int64) {
 	r.cancel() // always cancel the previous reader
 	r.cancel = cancel
 	r.version++
+	version := r.version // read under the mutex, the goroutines below run after it is released
 
 	r.join.Add(len(offsetsByPartition))
 	for key, offset := range offsetsByPartition {
@@ -1208,7 +1209,7 @@ func (r *Reader) start(offsetsByPartition map[topicPartition]int64) {
 				readBatchTimeout: r.config.ReadBatchTimeout,
 				backoffDelayMin:  r.config.ReadBackoffMin,
 				backoffDelayMax:  r.config.ReadBackoffMax,
-				version:          r.version,
+				version:          version,
 				msgs:             r.msgs,
 				stats:            r.stats,
 				isolationLevel:   r.config.IsolationLevel,
